@@ -595,6 +595,10 @@ def make_ctx(thorough, levels_list, only=None, missing=False):
                     extremes_at = len(mss) - 1
                     if precision_boundary_values(k):
                         mss = mss + [precision_boundary_values(k)]
+            if klass == "num" and is_float(k) and ("16" in k or "32" in k):
+                # the data are what the dtype can hold: quantise the intended values (1e-3 is not a float16)
+                q = np.float16 if "16" in k else np.float32
+                mss = [[float(q(v)) for v in ms] for ms in mss]
             if not missing:
                 if k != "object(NaN)":  # identical to "object" when nothing is missing
                     rows_by_dtype[k] = [distinct_orders(ms) for ms in mss]
